@@ -10,6 +10,10 @@ package main
 //  (d) the same store behind a real dht.Server: inbound put/get datagrams and Server.Put
 //  (e) store faults, in (b) and (d): chosen Get/Put/Del calls of the underlying Store return an error
 //      that is not ErrItemNotFound (lines b44fput b44fget b44fwput b44fwget b44flput; model Bep44Fault.v)
+//  (f) stores that copy / rebuild items (bep44_stores.go): custom implementations of the exported
+//      bep44.Store interface that do not hand back the *Item pointer they were given; sequential
+//      histories, wire level and Server.Put, ageing through VerifAge where the representation keeps the
+//      time stamp and through real time (short expiry) where it does not (model Bep44Rebuild.v)
 //
 // Every line is `op args => observed`; the model runner recomputes the part after `=>`.
 // `edtable` lines carry the ed25519 verdicts (computed here with crypto/ed25519 on the buffer built
@@ -75,6 +79,7 @@ func b44Engine(seed uint64, tier string, args []string) {
 	e.pure()
 	e.sequential()
 	e.sequentialFaults()
+	e.rebuilding()
 	e.concurrent()
 	e.serverContained()
 }
@@ -237,7 +242,9 @@ func (e *b44env) mk(v interface{}, key int, salt []byte, seq, cas int64) *b44it 
 	return x
 }
 
-func b44edtable(items []*b44it) {
+func b44edtable(items []*b44it) { b44edtableTo(emit, items) }
+
+func b44edtableTo(emit func(string, ...interface{}), items []*b44it) {
 	seen := map[string]bool{}
 	var ents []string
 	for _, x := range items {
@@ -457,11 +464,12 @@ type b44thr struct {
 
 // yields to the scheduler at every Get/Put/Del made by a registered thread; other callers pass through
 type b44ystore struct {
-	mem   *bep44.Memory
+	mem   bep44.Store // the store underneath: bep44.Memory, or one of the copying / rebuilding stores
 	mu    sync.Mutex
 	byGid map[int64]*b44thr
-	flt   b44fault // armed faults (see arm)
-	hits  []string // the calls that were failed since arm
+	flt   b44fault                 // armed faults (see arm)
+	hits  []string                 // the calls that were failed since arm
+	acc   map[bep44.Target]*b44acc // the latest successful Put per target (see trueAgeOracle)
 }
 
 // which calls of the underlying store fail while armed: the call returns errB44Fault (not
@@ -548,7 +556,13 @@ func (s *b44ystore) Put(i *bep44.Item) error {
 	if s.failing("put") {
 		return errB44Fault
 	}
-	return s.mem.Put(i)
+	err := s.mem.Put(i)
+	if err == nil {
+		s.mu.Lock()
+		s.acc[i.Target()] = &b44acc{at: time.Now()}
+		s.mu.Unlock()
+	}
+	return err
 }
 func (s *b44ystore) Del(t bep44.Target) error {
 	s.yield("yD")
@@ -595,32 +609,148 @@ type b44case struct {
 	e      *b44env
 	name   string
 	mem    *bep44.Memory
+	xs     b44xstore // nil: bep44.Memory (mem) is the underlying store
+	exp    time.Duration
 	ys     *b44ystore
 	w      *bep44.Wrapper
 	nop    int
 	thr    []*b44thr
 	sched  []int
 	hasGet bool
+	// lines of a case that runs in lockstep with others are held back until it is complete
+	held    bool
+	lines   []string
+	aborted bool
 }
 
 func (e *b44env) begin(name string, items []*b44it) *b44case {
-	c := &b44case{e: e, name: name, mem: bep44.NewMemory()}
-	c.ys = &b44ystore{mem: c.mem, byGid: map[int64]*b44thr{}}
-	c.w = bep44.NewWrapper(c.ys, b44Exp)
-	emit("b44begin %s %d => ok", name, int64(b44Exp))
-	b44edtable(items)
+	return e.beginK(name, items, nil, b44Exp, false)
+}
+
+// a case over the underlying store xs (nil: bep44.Memory) and the expiry exp
+func (e *b44env) beginK(name string, items []*b44it, xs b44xstore, exp time.Duration, held bool) *b44case {
+	c := &b44case{e: e, name: name, mem: bep44.NewMemory(), xs: xs, exp: exp, held: held}
+	var under bep44.Store = c.mem
+	if xs != nil {
+		under = xs
+	}
+	c.ys = &b44ystore{mem: under, byGid: map[int64]*b44thr{}, acc: map[bep44.Target]*b44acc{}}
+	c.w = bep44.NewWrapper(c.ys, exp)
+	if xs == nil {
+		c.emit("b44begin %s %d => ok", name, int64(exp))
+	} else {
+		fp, fg := xs.forgets()
+		c.emit("b44kbegin %s %d %s %d %d => ok", name, int64(exp), xs.kind(), b2i(fp), b2i(fg))
+	}
+	b44edtableTo(c.emit, items)
 	return c
 }
 
-func (c *b44case) end() { emit("b44end => ok") }
+func (c *b44case) emit(format string, a ...interface{}) {
+	if c.held {
+		c.lines = append(c.lines, fmt.Sprintf(format, a...))
+		return
+	}
+	emit(format, a...)
+}
+
+func (c *b44case) end() {
+	c.emit("b44end => ok")
+	if c.held {
+		for _, l := range c.lines {
+			emit("%s", l)
+		}
+		c.held, c.lines = false, nil
+	}
+}
+
+// content of the underlying store, sorted by target
+func (c *b44case) dump() []bep44.VerifEntry {
+	if c.xs != nil {
+		return c.xs.dump()
+	}
+	return bep44.VerifDump(c.mem)
+}
+
+func (c *b44case) kindName() string {
+	if c.xs != nil {
+		return c.xs.kind()
+	}
+	return "memory"
+}
+
+// are the time stamps of dump() the ones Wrapper.Get is handed?  Not over a store that rebuilds the
+// item on every read: there the stamp the store keeps never reaches the wrapper.
+func (c *b44case) stampsVisible() bool {
+	if c.xs == nil {
+		return true
+	}
+	_, fg := c.xs.forgets()
+	return !fg
+}
+
+// Expiry verdicts that hold whatever the scheduling.  With the two-hour expiry ages are virtual
+// (VerifAge, whole minutes; the real time between operations is well below the 30 s of slack).  With
+// a short expiry ages are real: t0 is a reading taken before the call was made, t1 one taken after it
+// returned, the comparison inside Wrapper.Get happened in between.
+func (c *b44case) surelyExpired(created, t0 time.Time) bool {
+	if c.exp >= time.Minute {
+		return b44vage(created) >= int64(c.exp/time.Minute)
+	}
+	return t0.Sub(created) > c.exp
+}
+
+func (c *b44case) surelyFresh(created, t1 time.Time) bool {
+	if c.exp >= time.Minute {
+		return b44vage(created) < int64(c.exp/time.Minute)
+	}
+	return t1.Sub(created) < c.exp
+}
+
+// The expiry clause on the TRUE age of an item, independent of any time stamp: the yielding store notes
+// when the latest successful Put of the underlying store on a target returned (at; every accepted
+// Wrapper.Put ends with one, from whichever goroutine) and the harness how much older VerifAge has made
+// the stored items since (vage; only where the store's representation has a stamp that can be moved).
+// The stamp Wrapper.Put gave the item is not later than `at`, the comparison made by a get is not earlier
+// than the reading t0 taken before the get was issued: if t0 - at + vage exceeds the expiry the item is
+// older than the expiry and must not be served, whatever the store does with the item in between.
+type b44acc struct {
+	at   time.Time
+	vage time.Duration
+}
+
+func (c *b44case) trueAgeOracle(t [20]byte, t0 time.Time, where string) {
+	c.ys.mu.Lock()
+	a := c.ys.acc[t]
+	var at time.Time
+	var vage time.Duration
+	if a != nil {
+		at, vage = a.at, a.vage
+	}
+	c.ys.mu.Unlock()
+	if a == nil {
+		return
+	}
+	if age := t0.Sub(at) + vage; age > c.exp {
+		c.e.fire("C13", "expired-item-served:by-true-age:"+c.kindName(), "%s expiry=%v accepted-put-returned=%v-before-the-get aged-by=%v", where, c.exp,
+			t0.Sub(at).Round(time.Millisecond), vage)
+	}
+}
 
 func b44vage(created time.Time) int64 {
+	if created.Before(time.Unix(0, 0)) {
+		return math.MaxInt32 // no time stamp (the zero time): older than any expiry
+	}
 	return int64((time.Since(created) + 30*time.Second) / time.Minute)
 }
 
 func b44itemStr(i *bep44.Item, created time.Time) string {
-	return fmt.Sprintf("%d:%d:%s:%s:%s:%s:%d", i.Seq, i.Cas, hx(bencode.MustMarshal(i.V)), hx(i.K[:]), hx(i.Salt),
-		hx(i.Sig[:]), int64(time.Since(created)/time.Minute))
+	age := strconv.FormatInt(int64(time.Since(created)/time.Minute), 10)
+	if created.Before(time.Unix(0, 0)) {
+		age = "z" // no time stamp: an item rebuilt by the store from the exported fields
+	}
+	return fmt.Sprintf("%d:%d:%s:%s:%s:%s:%s", i.Seq, i.Cas, hx(bencode.MustMarshal(i.V)), hx(i.K[:]), hx(i.Salt),
+		hx(i.Sig[:]), age)
 }
 
 func b44dumpStr(es []bep44.VerifEntry) string {
@@ -694,10 +824,10 @@ func (c *b44case) seqDecreased(before, after []bep44.VerifEntry, key, where stri
 
 func (c *b44case) put(x *b44it) string {
 	c.nop++
-	before := bep44.VerifDump(c.mem)
+	before := c.dump()
 	got := b44errStr(c.w.Put(x.item()))
-	after := bep44.VerifDump(c.mem)
-	emit("b44put %s => %s | %s", x.args(), got, b44dumpStr(after))
+	after := c.dump()
+	c.emit("b44put %s => %s | %s", x.args(), got, b44dumpStr(after))
 	c.putOracles(x, got, before, after, fmt.Sprintf("op#%d Wrapper.Put", c.nop))
 	return got
 }
@@ -734,44 +864,66 @@ func (c *b44case) putOracles(x *b44it, got string, before, after []bep44.VerifEn
 
 func (c *b44case) get(t [20]byte) {
 	c.nop++
-	before := bep44.VerifDump(c.mem)
+	before := c.dump()
+	t0 := time.Now()
 	it, err := c.w.Get(t)
-	after := bep44.VerifDump(c.mem)
+	t1 := time.Now()
+	after := c.dump()
 	res := "notfound"
 	if err == nil && it != nil {
 		res = "found " + b44itemStr(it, bep44.VerifCreated(it))
 	} else if err != bep44.ErrItemNotFound {
 		res = "error"
 	}
-	emit("b44get %s => %s | %s", hx(t[:]), res, b44dumpStr(after))
+	c.emit("b44get %s => %s | %s", hx(t[:]), res, b44dumpStr(after))
 	where := fmt.Sprintf("case=%s op#%d Wrapper.Get target=%s", c.name, c.nop, hx(t[:]))
-	c.getOracles(t, it, before, after, where)
+	c.getOraclesAt(t, it, before, after, where, t0, t1)
 }
 
 func (c *b44case) getOracles(t [20]byte, it *bep44.Item, before, after []bep44.VerifEntry, where string) {
-	expMin := int64(b44Exp / time.Minute)
+	c.getOraclesAt(t, it, before, after, where, time.Time{}, time.Now())
+}
+
+// t0 / t1: readings of the clock taken before the get was issued / after it returned
+func (c *b44case) getOraclesAt(t [20]byte, it *bep44.Item, before, after []bep44.VerifEntry, where string, t0, t1 time.Time) {
 	st := b44find(before, t)
 	if it != nil {
-		if b44vage(bep44.VerifCreated(it)) >= expMin {
+		if c.surelyExpired(bep44.VerifCreated(it), t0) {
 			c.e.fire("C13", "expired-item-served", "%s age=%dmin", where, b44vage(bep44.VerifCreated(it)))
+		}
+		if !t0.IsZero() {
+			c.trueAgeOracle(t, t0, where)
 		}
 		if st == nil || st.Item.Seq != it.Seq || !bytes.Equal(bencode.MustMarshal(st.Item.V), bencode.MustMarshal(it.V)) || st.Item.Sig != it.Sig {
 			c.e.fire("C12", "served-item-not-the-stored-one", "%s", where)
 		}
-	} else if st != nil && b44vage(st.Created) < expMin {
+	} else if st != nil && c.stampsVisible() && c.surelyFresh(st.Created, t1) {
 		c.e.fire("C13", "fresh-item-not-served", "%s age=%dmin", where, b44vage(st.Created))
 	}
 	for i := range before {
-		if b44find(after, before[i].Target) == nil && b44vage(before[i].Created) < expMin {
+		if b44find(after, before[i].Target) == nil && c.stampsVisible() && c.surelyFresh(before[i].Created, t1) {
 			c.e.fire("C13", "fresh-item-deleted-by-get:sequential", "%s deleted=%s", where, hx(before[i].Target[:]))
 		}
 	}
 	c.storeOracle(after, where)
 }
 
+// makes every stored item d older, where the representation of the store has a time stamp
 func (c *b44case) age(d time.Duration) {
-	bep44.VerifAge(c.mem, d)
-	emit("b44age %d => ok", int64(d))
+	reached := true
+	if c.xs != nil {
+		reached = c.xs.age(d)
+	} else {
+		bep44.VerifAge(c.mem, d)
+	}
+	if reached {
+		c.ys.mu.Lock()
+		for _, a := range c.ys.acc {
+			a.vage += d
+		}
+		c.ys.mu.Unlock()
+	}
+	c.emit("b44age %d => ok", int64(d))
 }
 
 // ---------------------------------------------------------------- store faults
@@ -779,12 +931,12 @@ func (c *b44case) age(d time.Duration) {
 // Wrapper.Put while the calls named by f fail
 func (c *b44case) fput(x *b44it, f b44fault) string {
 	c.nop++
-	before := bep44.VerifDump(c.mem)
+	before := c.dump()
 	c.ys.arm(f)
 	got := b44errStr(c.w.Put(x.item()))
 	hits := c.ys.disarm()
-	after := bep44.VerifDump(c.mem)
-	emit("b44fput %d %d %s => %s | %s", b2i(f.get), b2i(f.put), x.args(), got, b44dumpStr(after))
+	after := c.dump()
+	c.emit("b44fput %d %d %s => %s | %s", b2i(f.get), b2i(f.put), x.args(), got, b44dumpStr(after))
 	c.faultPutOracles(x, got, before, after, fmt.Sprintf("op#%d Wrapper.Put faults=%s", c.nop, f), hits)
 	return got
 }
@@ -813,18 +965,22 @@ func (c *b44case) faultPutOracles(x *b44it, got string, before, after []bep44.Ve
 // Wrapper.Get while the calls named by f fail
 func (c *b44case) fget(t [20]byte, f b44fault) {
 	c.nop++
-	before := bep44.VerifDump(c.mem)
+	before := c.dump()
 	c.ys.arm(f)
+	t0 := time.Now()
 	it, err := c.w.Get(t)
 	hits := c.ys.disarm()
-	after := bep44.VerifDump(c.mem)
+	after := c.dump()
 	res := "notfound"
 	if err == nil && it != nil {
 		res = "found " + b44itemStr(it, bep44.VerifCreated(it))
 	} else if err != bep44.ErrItemNotFound {
 		res = "error"
 	}
-	emit("b44fget %d %d %s => %s | %s", b2i(f.get), b2i(f.del), hx(t[:]), res, b44dumpStr(after))
+	if it != nil {
+		c.trueAgeOracle(t, t0, fmt.Sprintf("case=%s op#%d Wrapper.Get target=%s faults=%s", c.name, c.nop, hx(t[:]), f))
+	}
+	c.emit("b44fget %d %d %s => %s | %s", b2i(f.get), b2i(f.del), hx(t[:]), res, b44dumpStr(after))
 	where := fmt.Sprintf("case=%s op#%d Wrapper.Get target=%s faults=%s failed-calls=%s", c.name, c.nop, hx(t[:]), f, hits)
 	c.faultGetOracles(t, it, before, after, where, hits)
 }
@@ -1274,7 +1430,7 @@ func (e *b44env) runSchedule(scn *b44scn, name string, choose func(opts []int) i
 		tid := choose(opts)
 		c.sched = append(c.sched, tid)
 		th := c.thr[tid]
-		before := bep44.VerifDump(c.mem)
+		before := c.dump()
 		if th.st == "N" {
 			c.launch(th)
 		} else {
@@ -1282,13 +1438,13 @@ func (e *b44env) runSchedule(scn *b44scn, name string, choose func(opts []int) i
 			th.resume <- struct{}{}
 		}
 		c.settle()
-		after := bep44.VerifDump(c.mem)
+		after := c.dump()
 		emit("b44cstep %d => %s | %s", tid, c.statuses(), b44seqsStr(after))
 		where := fmt.Sprintf("threads=[%s] sched=%v", strings.Join(briefs, " "), c.sched)
 		c.seqDecreased(before, after, "seq-decreased:"+kind, where)
 		c.storeOracle(after, where)
 	}
-	final := bep44.VerifDump(c.mem)
+	final := c.dump()
 	emit("b44cend => %s | %s", c.statuses(), b44dumpStr(final))
 	where := fmt.Sprintf("case=%s threads=[%s] sched=%v results=[%s]", c.name, strings.Join(briefs, " "), c.sched, c.statuses())
 	var maxAcc *b44it
@@ -1478,13 +1634,17 @@ type b44srv struct {
 }
 
 func (e *b44env) beginServer(name string, items []*b44it) *b44srv {
-	c := e.begin(name, items)
+	return e.beginServerK(name, items, nil, b44Exp, false)
+}
+
+func (e *b44env) beginServerK(name string, items []*b44it, xs b44xstore, exp time.Duration, held bool) *b44srv {
+	c := e.beginK(name, items, xs, exp, held)
 	conn := &b44conn{in: make(chan b44pkt), closed: make(chan struct{})}
 	cfg := dht.NewDefaultServerConfig()
 	cfg.Conn = conn
 	cfg.NoSecurity = true
 	cfg.Store = c.ys
-	cfg.Exp = b44Exp
+	cfg.Exp = exp
 	cfg.SendLimiter = rate.NewLimiter(rate.Inf, 1)
 	cfg.StartingNodes = func() ([]dht.Addr, error) { return nil, nil }
 	s, err := dht.NewServer(cfg)
@@ -1533,7 +1693,7 @@ func (v *b44srv) wput(x *b44it, withSeq bool) { v.wputF(x, withSeq, b44fault{}) 
 func (v *b44srv) wputF(x *b44it, withSeq bool, f b44fault) {
 	v.c.nop++
 	tok := v.token()
-	before := bep44.VerifDump(v.c.mem)
+	before := v.c.dump()
 	a := &krpc.MsgArgs{V: x.v, K: x.k, Salt: x.salt, Sig: x.sig, Cas: x.cas, Token: tok}
 	seqs := "-"
 	if withSeq {
@@ -1543,7 +1703,7 @@ func (v *b44srv) wputF(x *b44it, withSeq bool, f b44fault) {
 	v.c.ys.arm(f)
 	m := v.query("put", a)
 	hits := v.c.ys.disarm()
-	after := bep44.VerifDump(v.c.mem)
+	after := v.c.dump()
 	res := "noreply"
 	got := "noreply"
 	if m != nil && m.Y == "r" {
@@ -1554,10 +1714,10 @@ func (v *b44srv) wputF(x *b44it, withSeq bool, f b44fault) {
 	}
 	where := fmt.Sprintf("op#%d inbound put", v.c.nop)
 	if f.any() {
-		emit("b44fwput %d %d %s %s %s %s %d %s => %s | %s", b2i(f.get), b2i(f.put), hx(x.bv), hx(x.k[:]), hx(x.salt), hx(x.sig[:]), x.cas, seqs, res, b44dumpStr(after))
+		v.c.emit("b44fwput %d %d %s %s %s %s %d %s => %s | %s", b2i(f.get), b2i(f.put), hx(x.bv), hx(x.k[:]), hx(x.salt), hx(x.sig[:]), x.cas, seqs, res, b44dumpStr(after))
 		where += " faults=" + f.String()
 	} else {
-		emit("b44wput %s %s %s %s %d %s => %s | %s", hx(x.bv), hx(x.k[:]), hx(x.salt), hx(x.sig[:]), x.cas, seqs, res, b44dumpStr(after))
+		v.c.emit("b44wput %s %s %s %s %d %s => %s | %s", hx(x.bv), hx(x.k[:]), hx(x.salt), hx(x.sig[:]), x.cas, seqs, res, b44dumpStr(after))
 	}
 	if !withSeq {
 		if !b44sameDump(before, after) {
@@ -1572,11 +1732,13 @@ func (v *b44srv) wget(t [20]byte, seq *int64) { v.wgetF(t, seq, b44fault{}) }
 
 func (v *b44srv) wgetF(t [20]byte, seq *int64, f b44fault) {
 	v.c.nop++
-	before := bep44.VerifDump(v.c.mem)
+	before := v.c.dump()
 	v.c.ys.arm(f)
+	t0 := time.Now()
 	m := v.query("get", &krpc.MsgArgs{Target: krpc.ID(t), Seq: seq})
+	t1 := time.Now()
 	hits := v.c.ys.disarm()
-	after := bep44.VerifDump(v.c.mem)
+	after := v.c.dump()
 	seqs := "-"
 	if seq != nil {
 		seqs = strconv.FormatInt(*seq, 10)
@@ -1584,18 +1746,22 @@ func (v *b44srv) wgetF(t [20]byte, seq *int64, f b44fault) {
 	res := "noreply"
 	st := b44find(before, t)
 	where := fmt.Sprintf("case=%s op#%d inbound get target=%s seq=%s", v.c.name, v.c.nop, hx(t[:]), seqs)
-	expMin := int64(b44Exp / time.Minute)
 	if m != nil && m.Y == "r" && m.R != nil {
 		rs := "-"
 		if m.R.Seq != nil {
 			rs = strconv.FormatInt(*m.R.Seq, 10)
+			// the seq of an item is sent only while the item is served
+			v.c.trueAgeOracle(t, t0, where)
 		}
 		if len(m.R.V) > 0 {
+			if m.R.Seq == nil {
+				v.c.trueAgeOracle(t, t0, where)
+			}
 			res = fmt.Sprintf("seq=%s %s %s %s", rs, hx(m.R.V), hx(m.R.K[:]), hx(m.R.Sig[:]))
 			// C12/C13 from the reply alone
 			if st == nil || !bytes.Equal(bencode.MustMarshal(st.Item.V), m.R.V) || st.Item.K != m.R.K || st.Item.Sig != m.R.Sig {
 				v.c.e.fire("C12", "served-item-not-the-stored-one", "%s", where)
-			} else if b44vage(st.Created) >= expMin {
+			} else if v.c.stampsVisible() && v.c.surelyExpired(st.Created, t0) {
 				v.c.e.fire("C13", "expired-item-served", "%s", where)
 			}
 			if seq != nil && st != nil && st.Item.Seq <= *seq {
@@ -1603,7 +1769,7 @@ func (v *b44srv) wgetF(t [20]byte, seq *int64, f b44fault) {
 			}
 		} else {
 			res = fmt.Sprintf("seq=%s - - -", rs)
-			if hits == "" && st != nil && b44vage(st.Created) < expMin && (seq == nil || st.Item.Seq > *seq) {
+			if hits == "" && st != nil && v.c.stampsVisible() && v.c.surelyFresh(st.Created, t1) && (seq == nil || st.Item.Seq > *seq) {
 				v.c.e.fire("C13", "get-seq-gate:value-withheld-though-newer", "%s stored-seq=%d", where, st.Item.Seq)
 			}
 		}
@@ -1611,14 +1777,14 @@ func (v *b44srv) wgetF(t [20]byte, seq *int64, f b44fault) {
 		res = fmt.Sprintf("error %d", m.E.Code)
 	}
 	if f.any() {
-		emit("b44fwget %d %d %s %s => %s | %s", b2i(f.get), b2i(f.del), hx(t[:]), seqs, res, b44dumpStr(after))
+		v.c.emit("b44fwget %d %d %s %s => %s | %s", b2i(f.get), b2i(f.del), hx(t[:]), seqs, res, b44dumpStr(after))
 		where += " faults=" + f.String() + " failed-calls=" + hits
 		v.c.seqDecreased(before, after, "seq-decreased:store-fault", where)
 	} else {
-		emit("b44wget %s %s => %s | %s", hx(t[:]), seqs, res, b44dumpStr(after))
+		v.c.emit("b44wget %s %s => %s | %s", hx(t[:]), seqs, res, b44dumpStr(after))
 	}
 	for i := range before {
-		if b44find(after, before[i].Target) == nil && b44vage(before[i].Created) < expMin {
+		if b44find(after, before[i].Target) == nil && v.c.stampsVisible() && v.c.surelyFresh(before[i].Created, t1) {
 			v.c.e.fire("C13", "fresh-item-deleted-by-get:sequential", "%s", where)
 		}
 	}
@@ -1629,7 +1795,7 @@ func (v *b44srv) lput(x *b44it) { v.lputF(x, b44fault{}) }
 
 func (v *b44srv) lputF(x *b44it, f b44fault) {
 	v.c.nop++
-	before := bep44.VerifDump(v.c.mem)
+	before := v.c.dump()
 	v.c.ys.arm(f)
 	p := bep44.Put{V: x.v, Salt: x.salt, Sig: x.sig, Cas: x.cas, Seq: x.seq}
 	ks := "-"
@@ -1674,13 +1840,13 @@ func (v *b44srv) lputF(x *b44it, f b44fault) {
 		res = fmt.Sprintf("query %s %s %s %s %d %s", hx(bencode.MustMarshal(q.A.V)), hx(q.A.K[:]), hx(q.A.Salt), hx(q.A.Sig[:]), q.A.Cas, sq)
 	}
 	hits := v.c.ys.disarm()
-	after := bep44.VerifDump(v.c.mem)
+	after := v.c.dump()
 	where := fmt.Sprintf("op#%d Server.Put", v.c.nop)
 	if f.any() {
-		emit("b44flput %d %d %s %s %s %s %d %d => %s | %s", b2i(f.get), b2i(f.put), hx(x.bv), ks, hx(x.salt), hx(x.sig[:]), x.cas, x.seq, res, b44dumpStr(after))
+		v.c.emit("b44flput %d %d %s %s %s %s %d %d => %s | %s", b2i(f.get), b2i(f.put), hx(x.bv), ks, hx(x.salt), hx(x.sig[:]), x.cas, x.seq, res, b44dumpStr(after))
 		where += " faults=" + f.String()
 	} else {
-		emit("b44lput %s %s %s %s %d %d => %s | %s", hx(x.bv), ks, hx(x.salt), hx(x.sig[:]), x.cas, x.seq, res, b44dumpStr(after))
+		v.c.emit("b44lput %s %s %s %s %d %d => %s | %s", hx(x.bv), ks, hx(x.salt), hx(x.sig[:]), x.cas, x.seq, res, b44dumpStr(after))
 	}
 	v.c.faultPutOracles(x, got, before, after, where, hits)
 }
@@ -1729,6 +1895,7 @@ func (e *b44env) server() {
 	}
 	e.serverExtremes()
 	e.serverFaults()
+	e.serverRebuilding()
 	cnt := 25
 	if e.thorough() {
 		cnt = 400
